@@ -42,7 +42,14 @@ func execUnionExprUnion(context *exprContext, expr *grammar.Grammar) error {
 		return fmt.Errorf("cannot union non-NodeSet's")
 	}
 
-	context.result = unionCleanup(append(leftNodeSet, rightNodeSet...))
+	// The operands may be node-sets owned by the caller (variables, earlier
+	// results): merge them into a new slice instead of appending to, and
+	// then sorting, the left operand's backing array.
+	merged := make(NodeSet, 0, len(leftNodeSet)+len(rightNodeSet))
+	merged = append(merged, leftNodeSet...)
+	merged = append(merged, rightNodeSet...)
+
+	context.result = unionCleanup(merged)
 	return nil
 }
 
